@@ -752,7 +752,7 @@ func (x *Exec) lockBalanced(fr *Frame, st *State, ret *ssa.Return) {
 			}
 		}
 	}
-	if !direct {
+	if !direct || !contractMentionsLocks(fr.fc) {
 		return
 	}
 	for _, k := range sortedKeys(st.H) {
@@ -765,4 +765,31 @@ func (x *Exec) lockBalanced(fr *Frame, st *State, ret *ssa.Return) {
 		}
 		x.vc.oblige("lock.balanced", Implies(st.Reach, Eq(st.H[k], entry)), x.posOf(fr.fn, ret.Pos()), "every mutex is returned in the state it was found in ("+strings.TrimPrefix(k, "Lock.")+")")
 	}
+}
+
+// contractMentionsLocks: the contract talks about lock state (wheld/rheld/unheld) somewhere; only such
+// functions are checked for lock balance, every other callee is assumed balanced.
+func contractMentionsLocks(fc *FuncContract) bool {
+	if fc == nil {
+		return false
+	}
+	has := func(src string) bool {
+		return strings.Contains(src, "wheld(") || strings.Contains(src, "rheld(") || strings.Contains(src, "unheld(")
+	}
+	for _, c := range fc.Requires {
+		if has(c.Src) {
+			return true
+		}
+	}
+	for _, c := range fc.Ensures {
+		if has(c.Src) {
+			return true
+		}
+	}
+	for _, cs := range fc.CallSites {
+		if cs.Clause != nil && has(cs.Clause.Src) {
+			return true
+		}
+	}
+	return false
 }
